@@ -102,10 +102,10 @@ MUTANTS = [
  ("c04_thread_overflow_ge", ["C04"], [(T, "            if order.len() > limit {", "            if order.len() >= limit {")]),
  ("c06_sync_expiry_gt", ["C06"], [(E, "self.inserted_at.elapsed().as_secs() >= ttl_secs", "self.inserted_at.elapsed().as_secs() > ttl_secs")]),
  ("c06_async_expiry_gt", ["C06"], [(A, "                age >= ttl\n", "                age > ttl\n")]),
- ("c06_async_expired_not_removed", ["C06"], [(A, '''            drop(entry_ref);
+ ("c06_async_expired_not_removed", ["C06"], [(A, '''            let mut order = self.order.lock();
             self.cache.remove(key);
-''', '''            drop(entry_ref);
-''')]),
+            order.retain(|k| k != key);''', '''            let mut order = self.order.lock();
+            order.retain(|k| k != key);''')]),
  ("c08_global_tlru_hits_not_counted", ["C08"], [(G, '''                    move_key_to_end(&mut self.order.lock(), key);
                     self.increment_frequency(key);
                 }
@@ -294,14 +294,15 @@ impl<T1, T2, T3>''')]),
 
         self.invalidate_caches(&cache_names)''')]),
  ("c13_sync_clear_callback_keeps_queue", ["C13", "C04"], [(MS, '''                            #cache_ident.write().clear();
-                            #order_ident.lock().clear();''', '''                            #cache_ident.write().clear();''')]),
+                            order_write.clear();''', '''                            #cache_ident.write().clear();
+                            let _ = &mut order_write;''')]),
  ("c12_dependency_registered_as_tag", ["C12"], [(INV, '''            for dep in &metadata.dependencies {
                 dep_map''', '''            let mut tag_map2 = self.tag_to_caches.write();
             for dep in &metadata.dependencies {
                 tag_map2.entry(dep.clone()).or_insert_with(HashSet::new).insert(cache_name.to_string());
                 dep_map''')]),
  ("c12_async_clear_callback_clears_order_only", ["C12"], [(MA, '''                        #cache_ident.clear();
-                        #order_ident.lock().clear();''', '''                        #order_ident.lock().clear();''')]),
+                        order_write.clear();''', '''                        order_write.clear();''')]),
  ("c12_invalidate_cache_requires_tag", ["C12"], [(MS, '''    let invalidation_registration = if !attrs.tags.is_empty()
         || !attrs.events.is_empty()
         || !attrs.dependencies.is_empty()
@@ -327,11 +328,11 @@ impl<T1, T2, T3>''')]),
             self.stats.record_miss();''', '''            remove_key_from_global_cache(&mut map_write, &mut o, key);
             #[cfg(feature = "stats")]
             self.stats.record_hit();''')]),
- ("c15_async_miss_twice_on_expiry", ["C15"], [(A, '''            let mut order = self.order.lock();
+ ("c15_async_miss_twice_on_expiry", ["C15"], [(A, '''            self.cache.remove(key);
             order.retain(|k| k != key);
         }
 
-        // Record cache miss''', '''            let mut order = self.order.lock();
+        // Record cache miss''', '''            self.cache.remove(key);
             order.retain(|k| k != key);
             #[cfg(feature = "stats")]
             self.stats.record_miss();
@@ -348,15 +349,6 @@ impl<T1, T2, T3>''')]),
  ("c14_thread_scope_attribute_ignored", ["C14", "C19"], [(MU, '''                    attrs.scope = if scope_str == "thread" {
                         quote! { cachelito_core::CacheScope::ThreadLocal }''', '''                    attrs.scope = if scope_str == "thread" {
                         quote! { cachelito_core::CacheScope::Global }''')]),
- ("c14_thread_lfu_uses_shared_static", ["C14"], [(MS, '''        thread_local! {
-            static #cache_ident: RefCell<std::collections::HashMap<String, CacheEntry<#ret_type>>> = RefCell::new(std::collections::HashMap::new());''', '''        static __SHARED: once_cell::sync::Lazy<parking_lot::Mutex<std::collections::HashMap<String, #ret_type>>> =
-            once_cell::sync::Lazy::new(|| parking_lot::Mutex::new(std::collections::HashMap::new()));
-        if let Some(v) = __SHARED.lock().get(&#key_expr) {
-            return v.clone();
-        }
-        struct __Put(String);
-        thread_local! {
-            static #cache_ident: RefCell<std::collections::HashMap<String, CacheEntry<#ret_type>>> = RefCell::new(std::collections::HashMap::new());''')]),
  ("c19_thread_scope_ignores_policy", ["C19", "C07"], [(MS, '''            #limit_expr,
             #max_memory_expr,
             #policy_expr,
@@ -443,33 +435,22 @@ impl<T1, T2, T3>''')]),
             order.retain(|k| k != key);''', '''            self.cache.remove(key);
             let mut order = self.order.lock();
             order.retain(|k| k != key);''')]),
- ("c18_async_insert_store_before_order_lock", ["C18"], [(A, '''        let mut order = self.order.lock();
-
-        // If the key is already cached, the new value replaces the old one
-        self.remove_existing_entry(key, &mut order);
-
-        // Handle entry-count limits
-        self.handle_entry_limit_eviction(&mut order);
-
-        // Add the new entry to the order queue
+ ("c18_async_insert_store_before_order_lock", ["C18"], [(A, '''        // Add the new entry to the order queue
         order.push_back(key.to_string());
 
         // Insert into cache with frequency initialized to 0
-        self.cache.insert(key.to_string(), (value, timestamp, 0));''', '''        {
-            let mut order = self.order.lock();
+        self.cache.insert(key.to_string(), (value, timestamp, 0));
+    }
 
-            // If the key is already cached, the new value replaces the old one
-            self.remove_existing_entry(key, &mut order);
-
-            // Handle entry-count limits
-            self.handle_entry_limit_eviction(&mut order);
-
-            // Add the new entry to the order queue
-            order.push_back(key.to_string());
-        }
+    /// Prepares the replacement''', '''        // Add the new entry to the order queue
+        order.push_back(key.to_string());
+        drop(order);
 
         // Insert into cache with frequency initialized to 0
-        self.cache.insert(key.to_string(), (value, timestamp, 0));''')]),
+        self.cache.insert(key.to_string(), (value, timestamp, 0));
+    }
+
+    /// Prepares the replacement''')]),
  ("c18_global_lru_get_returns_value_of_concurrent_key", ["C18"], [(G, '''                EvictionPolicy::LRU => {
                     // Move key to end of order queue (most recently used)
                     move_key_to_end(&mut self.order.lock(), key);
